@@ -1,0 +1,36 @@
+//! Verification hooks (compiled only with `--cfg maidsafe_safe_network_verif`).
+//! Pass-through access to the client-side `Register` (its constructor, `write_atop` and its two halves are
+//! private to `client::registers`) for the external correspondence harness in /verif. No behaviour of its own.
+
+use super::*;
+
+impl Register {
+    /// `Register::new`
+    pub fn verif_new(
+        initial_value: Option<Bytes>,
+        name: XorName,
+        owner: RegisterSecretKey,
+        permissions: RegisterPermissions,
+    ) -> Result<Register, RegisterError> {
+        Register::new(initial_value, name, owner, permissions)
+    }
+
+    /// `Register::write_atop`
+    pub fn verif_write_atop(
+        &mut self,
+        entry: &[u8],
+        owner: &RegisterSecretKey,
+    ) -> Result<(), RegisterError> {
+        self.write_atop(entry, owner)
+    }
+
+    /// The signed half (what `register_create` / `register_update` serialise and upload).
+    pub fn verif_signed(&self) -> &SignedRegister {
+        &self.signed_reg
+    }
+
+    /// The CRDT half (what `values()` reads).
+    pub fn verif_crdt(&self) -> &RegisterCrdt {
+        &self.crdt_reg
+    }
+}
